@@ -165,8 +165,6 @@ func TestC03Hierarchy(t *testing.T) {
 	})
 }
 
-const sigSideTableLeakWB = "same-process-second-simulation-differs:wb-evict-side-table-leak"
-
 func hasKind(spec memsys.AssemblySpec, k string) bool {
 	for _, l := range spec.Levels {
 		if l.Kind == k {
@@ -277,12 +275,6 @@ func runC03(s *kit.Session, f kit.Failer, t testing.TB, c c03Case) {
 	if len(rr.Repeats) == 2 {
 		if sg, m := compareTraces(rr.Repeats[0], rr.Repeats[1]); sg != "" {
 			sig := "same-process-second-simulation-differs:" + sg
-			if len(c.Spec.Levels) > 0 && hasKind(c.Spec, "wb") {
-				// the write-back cache's late evict milestone re-creates a
-				// forgotten side-table entry (listed C32 finding), which then
-				// leaks into the next simulation of the process
-				sig = sigSideTableLeakWB
-			}
 			s.Fail(f, c, sig, "the second of two identical simulations run in one process (default Simulation registration, tracing never started) handled a different event sequence: %s", m)
 			return
 		}
